@@ -106,18 +106,40 @@ def skipNl : List Tok → List Tok
   | .nl :: r => skipNl r
   | ts => ts
 
-/-- `parse_prefix_op`.  `fold = true` is the behaviour in which `-` directly followed by a numeric
-    literal is *not* a prefix operator (the literal is negated by `parse_expr_term` instead). -/
-def prefixOp? (fold : Bool) : List Tok → Option (PrefixOp × List Tok)
+/-- How `-` directly followed by a numeric literal is treated by `parse_prefix_op`:
+    `never`  — an ordinary prefix minus, whatever follows (the reference behaviour of the table);
+    `always` — never a prefix operator: `parse_expr_term` folds the sign into the literal before any
+               binary operator is looked at (the code before the fix of D11: `-2 % 3` = `(-2) % 3`);
+    `loose`  — the code today: folded into the literal (so that `-9223372036854775808` can be
+               written) unless the token after the literal is a postfix operator or a binary operator
+               binding tighter than unary minus, in which case it is an ordinary prefix minus. -/
+inductive FoldMode | never | always | loose
+  deriving DecidableEq, Repr
+
+/-- `postfix_op_of_tag(t).is_some() || binop_of_tag(t).is_some_and(|op| op.precedence() > 6)` -/
+def bindsTighter : List Tok → Bool
+  | .lparen :: _ | .dot :: _ | .lbrack :: _ | .bang :: _ | .question :: _ => true
+  | .op o :: _ => decide (PrefixOp.neg.prec < o.prec)
+  | _ => false
+
+/-- is the `-` in front of the numeric literal left to `parse_expr_term`? -/
+def foldsHere (mode : FoldMode) (afterLiteral : List Tok) : Bool :=
+  match mode with
+  | .never => false
+  | .always => true
+  | .loose => !bindsTighter afterLiteral
+
+/-- `parse_prefix_op` -/
+def prefixOp? (mode : FoldMode) : List Tok → Option (PrefixOp × List Tok)
   | .op .sub :: .atom a :: rest =>
-    if fold && a.isNum then none else some (.neg, .atom a :: rest)
+    if a.isNum && foldsHere mode rest then none else some (.neg, .atom a :: rest)
   | .op .sub :: rest => some (.neg, rest)
   | .not :: rest => some (.not, rest)
   | _ => none
 
 mutual
 /-- `parse_expr_bp(binding_power)` -/
-def parseBp (fold : Bool) : Nat → Nat → List Tok → Res Expr
+def parseBp (fold : FoldMode) : Nat → Nat → List Tok → Res Expr
   | 0, _, _ => .fuel
   | f + 1, bp, toks =>
     match prefixOp? fold toks with
@@ -133,7 +155,7 @@ def parseBp (fold : Bool) : Nat → Nat → List Tok → Res Expr
       | .fuel => .fuel
 
 /-- the `loop` of `parse_expr_bp`: postfix operators, then binary operators -/
-def loop (fold : Bool) : Nat → Nat → Expr → List Tok → Res Expr
+def loop (fold : FoldMode) : Nat → Nat → Expr → List Tok → Res Expr
   | 0, _, _, _ => .fuel
   | f + 1, bp, lhs, toks =>
     match toks with
@@ -170,7 +192,7 @@ def loop (fold : Bool) : Nat → Nat → Expr → List Tok → Res Expr
     | _ => .ok lhs toks
 
 /-- `parse_expr_term` (the modelled arms) -/
-def parseTerm (fold : Bool) : Nat → List Tok → Res Expr
+def parseTerm (fold : FoldMode) : Nat → List Tok → Res Expr
   | 0, _ => .fuel
   | f + 1, toks =>
     match skipNl toks with
@@ -196,7 +218,7 @@ def parseTerm (fold : Bool) : Nat → List Tok → Res Expr
 
 /-- `parse_delimited_list(closing, Comma, parse_expr)` after the opening token, including the final
     `expect_token(closing)`; a missing closing token is the (first) diagnostic -/
-def parseList (fold : Bool) : Nat → Tok → List Tok → Res Args
+def parseList (fold : FoldMode) : Nat → Tok → List Tok → Res Args
   | 0, _, _ => .fuel
   | f + 1, close, toks =>
     match skipNl toks with
@@ -221,13 +243,13 @@ end
 def fuelFor (toks : List Tok) : Nat := 3 * toks.length + 3
 
 /-- Which behaviour `/repo` has today for `-` directly followed by a numeric literal. -/
-def codeFoldsNegLiteral : Bool := false
+def codeFoldMode : FoldMode := .loose
 
 /-- `Parser::parse_expr` on a whole token list (the `Eof` token is the end of the list) -/
-def parseExprWith (fold : Bool) (toks : List Tok) : Res Expr :=
+def parseExprWith (fold : FoldMode) (toks : List Tok) : Res Expr :=
   parseBp fold (fuelFor toks) 0 (skipNl toks)
 
-def parseExpr (toks : List Tok) : Res Expr := parseExprWith codeFoldsNegLiteral toks
+def parseExpr (toks : List Tok) : Res Expr := parseExprWith codeFoldMode toks
 
 -- ---------------------------------------------------------------- rendering (same shape as the hook)
 def BinOp.name : BinOp → String
